@@ -65,10 +65,7 @@ def to_cvc5(smt2):
     return '(set-logic ALL)\n' + t
 
 
-def _solve(job):
-    idx, smt2, timeout_s, use_cvc5 = job
-    t0 = time.time()
-    out = {'idx': idx, 'result': 'unknown', 'backend': 'z3', 'time': 0.0, 'reason': ''}
+def _z3(smt2, timeout_s, out):
     try:
         ctx = z3.Context()
         s = z3.Solver(ctx=ctx)
@@ -86,57 +83,70 @@ def _solve(job):
                     vals[d.name()[3:]] = m[d].sexpr()
             out['values'] = vals
     except Exception as e:      # parser/solver failure is 'unknown', never a verdict
+        out['result'] = 'unknown'
         out['reason'] = 'z3 error: %s' % e
-    out['time'] = time.time() - t0
-    if out['result'] == 'unknown' and use_cvc5 and os.path.exists(CVC5):
-        t1 = time.time()
+
+
+def _cvc5(smt2, timeout_s, out):
+    try:
+        with tempfile.NamedTemporaryFile('w', suffix='.smt2', delete=False) as f:
+            f.write(to_cvc5(smt2))
+            fn = f.name
         try:
-            with tempfile.NamedTemporaryFile('w', suffix='.smt2', delete=False) as f:
-                f.write(to_cvc5(smt2))
-                fn = f.name
-            try:
-                names = re.findall(r'\(declare-fun (in![^ ]+) \(\)', smt2)
-                if names:
-                    with open(fn, 'a') as f2:
-                        f2.write('(get-value (%s))\n' % ' '.join(names))
-                ans = ''
-                for extra in ([], ['--full-saturate-quant']):
-                    p = subprocess.run([CVC5, '--strings-exp', '--produce-models'] + extra +
-                                       ['--tlimit=%d' % int(timeout_s * 1000), fn],
-                                       capture_output=True, text=True, timeout=timeout_s + 5)
-                    ans = p.stdout.strip().splitlines()[0] if p.stdout.strip() else ''
-                    if ans in ('sat', 'unsat'):
-                        if extra:
-                            out['backend_opts'] = ' '.join(extra)
-                        break
-                if ans == 'sat' and names:
-                    try:
-                        from .model import parse
-                        body = p.stdout.strip().split('\n', 1)[1]
-                        vals = {}
-                        for pair in parse(body)[0]:
-                            vals[pair[0][3:]] = pair[1]
-                        out['values_sexpr'] = vals
-                    except Exception as e:
-                        out['reason'] += ' | cvc5 model parse: %s' % e
-                if ans in ('unsat', 'sat'):
-                    # a cvc5 'sat' on a quantified problem is still only a candidate; we only
-                    # trust its 'unsat' (proof direction) and report sat as unknown->z3 model needed
-                    if ans == 'unsat':
-                        out['result'] = 'unsat'
-                        out['backend'] = 'cvc5'
-                    else:
-                        out['result'] = 'sat'
-                        out['backend'] = 'cvc5'
-                else:
-                    out['reason'] += ' | cvc5: %s %s' % (ans, p.stderr.strip()[:200])
-            finally:
-                os.unlink(fn)
-        except subprocess.TimeoutExpired:
-            out['reason'] += ' | cvc5 timeout'
-        except Exception as e:
-            out['reason'] += ' | cvc5 error: %s' % e
-        out['time'] += time.time() - t1
+            names = re.findall(r'\(declare-fun (in![^ ]+) \(\)', smt2)
+            if names:
+                with open(fn, 'a') as f2:
+                    f2.write('(get-value (%s))\n' % ' '.join(names))
+            for extra in (['--full-saturate-quant'], []):
+                p = subprocess.run([CVC5, '--strings-exp', '--produce-models'] + extra +
+                                   ['--tlimit=%d' % int(timeout_s * 1000), fn],
+                                   capture_output=True, text=True, timeout=timeout_s + 5)
+                ans = p.stdout.strip().splitlines()[0] if p.stdout.strip() else ''
+                if ans in ('sat', 'unsat'):
+                    out['result'] = ans
+                    out['backend'] = 'cvc5'
+                    if extra:
+                        out['backend_opts'] = ' '.join(extra)
+                    if ans == 'sat' and names:
+                        try:
+                            from .model import parse
+                            body = p.stdout.strip().split('\n', 1)[1]
+                            vals = {}
+                            for pair in parse(body)[0]:
+                                vals[pair[0][3:]] = pair[1]
+                            out['values_sexpr'] = vals
+                        except Exception as e:
+                            out['reason'] += ' | cvc5 model parse: %s' % e
+                    return
+                out['reason'] += ' | cvc5%s: %s %s' % (' ' + ' '.join(extra) if extra else '', ans,
+                                                      p.stderr.strip()[:160])
+        finally:
+            os.unlink(fn)
+    except subprocess.TimeoutExpired:
+        out['reason'] += ' | cvc5 timeout'
+    except Exception as e:
+        out['reason'] += ' | cvc5 error: %s' % e
+
+
+def _solve(job):
+    """z3 with a short budget first (most obligations take milliseconds), then cvc5 (plain and
+    with enumerative instantiation), then z3 again with the full budget."""
+    idx, smt2, timeout_s, use_cvc5 = job
+    t0 = time.time()
+    out = {'idx': idx, 'result': 'unknown', 'backend': 'z3', 'time': 0.0, 'reason': ''}
+    short = min(timeout_s, 3)
+    _z3(smt2, short, out)
+    if out['result'] == 'unknown' and use_cvc5 and os.path.exists(CVC5):
+        _cvc5(smt2, timeout_s, out)
+    if out['result'] == 'unknown' and timeout_s > short:
+        r2 = {'result': 'unknown', 'reason': ''}
+        _z3(smt2, timeout_s, r2)
+        if r2['result'] != 'unknown':
+            out.update(r2)
+            out['backend'] = 'z3'
+        else:
+            out['reason'] += ' | z3(full): ' + r2.get('reason', '')
+    out['time'] = time.time() - t0
     return out
 
 
